@@ -1209,8 +1209,25 @@ func (r *spRunner) run(bi int, beh []map[string]any, compare bool, res *vh.Resul
 			for k, id := range newest {
 				if c.subbed && c.tracked[k] && c.app[k] != id && c.epoch == epStr(r.bep) {
 					sig := "stale-after-publish"
+					// the payload the connection holds was defined by the backend under ANOTHER epoch than the subscription's
+					// (a broadcast prepared before the epoch flip reached it after the resubscribe): the staleness is the
+					// consequence of that stale-epoch push (per-connection key state carries no epoch), not a new defect
+					otherEpoch := false
+					r.mu.Lock()
+					suffix := fmt.Sprintf("|%s|%d", k, c.cver[k])
+					for dk, did := range r.defs {
+						if did == c.app[k] && strings.HasSuffix(dk, suffix) && !strings.HasPrefix(dk, c.epoch+"|") {
+							otherEpoch = true
+						}
+					}
+					if r.defs[c.epoch+suffix] == c.app[k] {
+						otherEpoch = false
+					}
+					r.mu.Unlock()
 					if w := c.missed[k]; w != "" {
 						sig += ":track-window:" + w
+					} else if otherEpoch {
+						sig += ":after-stale-epoch-data"
 					} else {
 						sig += ":free-run"
 					}
